@@ -20,7 +20,7 @@ E == Tr[l]
 \* notified: "no" | "yes" | "maybe" - a close notification seen while the connection is lost belongs to the current
 \* session, or (maybe) to an earlier attempt that failed after its connection was up (such an attempt may notify, late)
 Fresh == [started |-> FALSE, lost |-> FALSE, notified |-> "no", dials |-> 0, mark |-> 0, est |-> 0, failed |-> 0,
-          arg |-> "", closes |-> 0, owed |-> 0]
+          arg |-> "", closes |-> 0, owed |-> 0, cfgsent |-> FALSE]
 
 TraceInit == l = 1 /\ bad = <<>> /\ s = Fresh
              /\ stats = [scenarios |-> 0, ops |-> 0, starts |-> 0, probes |-> 0, rejected |-> 0]
@@ -35,11 +35,13 @@ Skip == l' = l + 1 /\ UNCHANGED <<bad, stats, s>>
 Believes == s.started /\ ~(s.lost /\ s.notified = "yes")
 Unsure == s.started /\ s.lost /\ s.notified = "maybe"   \* the stub may or may not have been told yet
 Running == s.started /\ ~s.lost
-MustFail == {"unreachable", "refuse", "drop-connect", "drop-register", "drop-after-register"}
+MustFail == {"unreachable", "refuse", "drop-connect", "drop-register", "drop-after-register",
+             "configure-rejected", "drop-in-configure"}
+Healthy == {"healthy", "slow-configure"}
 
 TBegin == Go("scenarios", Fresh)
 \* the connection is lost from the moment the driver starts dropping it
-TOp == Go("ops", [s EXCEPT !.mark = s.dials, !.arg = E.arg,
+TOp == Go("ops", [s EXCEPT !.mark = s.dials, !.arg = E.arg, !.cfgsent = FALSE,
                            !.lost = IF E.op = "PeerDrop" THEN s.started ELSE @])
 TDial == Go("ops", [s EXCEPT !.dials = @ + 1])
 \* the close notification has been processed by the stub when the callback runs
@@ -57,8 +59,10 @@ TRes ==
   THEN IF Believes /\ ~(Unsure /\ s.dials # s.mark)
        THEN IF E.class = "ok" THEN Reject("C16-second-start-succeeds", <<>>) ELSE Skip
        ELSE IF s.dials = s.mark THEN Reject("C16-stale-connection", <<s.arg, E.errtext>>)   \* no fresh connection dialled
-       ELSE IF s.arg = "healthy"
+       ELSE IF s.arg \in Healthy
             THEN IF E.class # "ok" THEN Reject("C16-start-failed", <<E.errtext>>)
+                 \* Start succeeds once the plugin is configured - not before the runtime even sent the configuration
+                 ELSE IF s.arg = "slow-configure" /\ ~s.cfgsent THEN Reject("C16-start-before-configured", <<E.ms>>)
                  ELSE Go("starts", [s EXCEPT !.started = TRUE, !.lost = FALSE, !.notified = "no", !.est = @ + 1])
             ELSE IF s.arg \in MustFail /\ E.class = "ok" THEN Reject("C16-start-succeeded-unexpectedly", <<s.arg>>)
             ELSE IF E.class = "ok"     \* a cut late in the handshake: the session got established, and is lost
@@ -88,6 +92,7 @@ TraceNext ==
        [] E.ev = "dial"    -> TDial
        [] E.ev = "res"     -> TRes
        [] E.ev = "onclose" -> TOnClose
+       [] E.ev = "configure.sent" -> Go("ops", [s EXCEPT !.cfgsent = TRUE])
        [] E.ev = "works"   -> TWorks
        [] E.ev = "End"     -> TEnd
        [] OTHER            -> Skip
